@@ -365,6 +365,10 @@ impl CellBuffer {
         // Combine the css, so as not to have a <!-- separator --> comment which
         // was intended only for text node added after a previous text node.
         let css = [element_styles, legend_css].join("\n");
+        // the style sheet is the character data of an xml element: the legend and the settings
+        // strings come from the user and must not be able to close the element or open a new one
+        #[cfg(not(feature = "with-dom"))]
+        let css = crate::fragment::escape_html_text(&css);
         html::tags::style([], [text(css)])
     }
 
